@@ -471,58 +471,64 @@ def splice_fn(item, directives, log, probe=False):
         raise AnchorLost(f"{item.name}: line /{rx}/ #{nth} not found")
 
     for d in directives:
-        op = d["op"]
-        if op == "sig":
-            inserts.append((bo, order, "\n" + d["text"] + "\n    ")); order += 1
-            if probe:
-                inserts.append((bo + 1, order, " " + PROBE)); order += 1
-        elif op == "loop":
-            if loops is None:
-                loops = _loops(text, bo)
-            k = d["k"]
-            if k > len(loops):
-                raise AnchorLost(f"{item.name}: loop {k} not found (has {len(loops)})")
-            inserts.append((loops[k - 1][1], order, "\n" + d["text"] + "\n")); order += 1
-            if probe:
-                inserts.append((loops[k - 1][1] + 1, order, " " + PROBE)); order += 1
-        elif op == "forname":
-            if loops is None:
-                loops = _loops(text, bo)
-            k = d["k"]
-            if k > len(loops) or loops[k - 1][2] != "for":
-                raise AnchorLost(f"{item.name}: for-loop {k} not found")
-            kw = loops[k - 1][0]
-            m = re.compile(r"\bin\s+").search(text, kw)
-            if not m:
-                raise AnchorLost(f"{item.name}: `in` of for-loop {k} not found")
-            inserts.append((m.end(), order, d["ident"] + ": ")); order += 1
-            log.append(f"R3 {item.name}: for-loop {k} iterator named `{d['ident']}`")
-        elif op == "before":
-            a, b, ln = find_line(d["rx"], d["n"])
-            inserts.append((a, order, d["text"] + "\n")); order += 1
-        elif op == "after":
-            a, b, ln = find_line(d["rx"], d["n"])
-            inserts.append((b, order, "\n" + d["text"])); order += 1
-        elif op == "subst":
-            r = re.compile(d["rx"])
-            hits = [m for m in r.finditer(text) if m.start() > bo]
-            if not hits:
-                raise AnchorLost(f"{item.name}: subst /{d['rx']}/ not found")
-            if d["n"] == "all":
-                chosen = hits
-            else:
-                if d["n"] > len(hits):
-                    raise AnchorLost(f"{item.name}: subst /{d['rx']}/ #{d['n']} not found")
-                chosen = [hits[d["n"] - 1]]
-            for m in chosen:
-                substs.append((m.start(), m.end(), m.expand(d["repl"])))
-                log.append(f"SUBST {item.name}: `{m.group(0)}` => `{m.expand(d['repl'])}`")
-        elif op == "noresname":
-            pass
-        elif op == "attr":
-            inserts.append((0, order, d["text"] + "\n")); order += 1
+      try:
+          op = d["op"]
+          if op == "sig":
+              inserts.append((bo, order, "\n" + d["text"] + "\n    ")); order += 1
+              if probe:
+                  inserts.append((bo + 1, order, " " + PROBE)); order += 1
+          elif op == "loop":
+              if loops is None:
+                  loops = _loops(text, bo)
+              k = d["k"]
+              if k > len(loops):
+                  raise AnchorLost(f"{item.name}: loop {k} not found (has {len(loops)})")
+              inserts.append((loops[k - 1][1], order, "\n" + d["text"] + "\n")); order += 1
+              if probe:
+                  inserts.append((loops[k - 1][1] + 1, order, " " + PROBE)); order += 1
+          elif op == "forname":
+              if loops is None:
+                  loops = _loops(text, bo)
+              k = d["k"]
+              if k > len(loops) or loops[k - 1][2] != "for":
+                  raise AnchorLost(f"{item.name}: for-loop {k} not found")
+              kw = loops[k - 1][0]
+              m = re.compile(r"\bin\s+").search(text, kw)
+              if not m:
+                  raise AnchorLost(f"{item.name}: `in` of for-loop {k} not found")
+              inserts.append((m.end(), order, d["ident"] + ": ")); order += 1
+              log.append(f"R3 {item.name}: for-loop {k} iterator named `{d['ident']}`")
+          elif op == "before":
+              a, b, ln = find_line(d["rx"], d["n"])
+              inserts.append((a, order, d["text"] + "\n")); order += 1
+          elif op == "after":
+              a, b, ln = find_line(d["rx"], d["n"])
+              inserts.append((b, order, "\n" + d["text"])); order += 1
+          elif op == "subst":
+              r = re.compile(d["rx"])
+              hits = [m for m in r.finditer(text) if m.start() > bo]
+              if not hits:
+                  raise AnchorLost(f"{item.name}: subst /{d['rx']}/ not found")
+              if d["n"] == "all":
+                  chosen = hits
+              else:
+                  if d["n"] > len(hits):
+                      raise AnchorLost(f"{item.name}: subst /{d['rx']}/ #{d['n']} not found")
+                  chosen = [hits[d["n"] - 1]]
+              for m in chosen:
+                  substs.append((m.start(), m.end(), m.expand(d["repl"])))
+                  log.append(f"SUBST {item.name}: `{m.group(0)}` => `{m.expand(d['repl'])}`")
+          elif op == "noresname":
+              pass
+          elif op == "attr":
+              inserts.append((0, order, d["text"] + "\n")); order += 1
+          else:
+              raise ValueError(op)
+      except AnchorLost as e:
+        if d.get("optional"):
+            log.append(f"OPTIONAL-ANCHOR-ABSENT {item.name}: {e}")
         else:
-            raise ValueError(op)
+            raise
     # apply from the end
     events = []
     for (off, o, t) in inserts:
@@ -544,7 +550,7 @@ def splice_fn(item, directives, log, probe=False):
 # ----------------------------------------------------------------------------------------------
 # template processing
 # ----------------------------------------------------------------------------------------------
-_dir = re.compile(r"^\s*//@(\w+)\s*(.*)$")
+_dir = re.compile(r"^\s*//@(\w+\??)\s*(.*)$")
 
 
 def _kv(s):
@@ -585,11 +591,13 @@ def build_unit(template_path, repo, verif_root, probe=False):
                 closed = False
                 def _has_dirs(k):
                     mm = _dir.match(lines[k]) if k < len(lines) else None
-                    return bool(mm) and mm.group(1) in ("sig", "loop", "forname", "before", "after", "subst", "noresname", "attr", "end")
+                    return bool(mm) and mm.group(1).rstrip("?") in ("sig", "loop", "forname", "before", "after", "subst", "noresname", "attr", "end")
                 while (kind == "fn" or _has_dirs(i) or dirs) and i < len(lines):
                     m2 = _dir.match(lines[i])
                     if m2:
                         op2, rest2 = m2.group(1), m2.group(2).strip()
+                        optional = op2.endswith("?")
+                        op2 = op2.rstrip("?")
                         if op2 == "end":
                             closed = True
                             i += 1
@@ -615,6 +623,7 @@ def build_unit(template_path, repo, verif_root, probe=False):
                             cur = {"op": "attr", "text": ""}
                         else:
                             raise ValueError(f"unknown directive {op2} in {path}:{i+1}")
+                        cur["optional"] = optional
                         dirs.append(cur)
                     else:
                         if cur is None:
